@@ -228,6 +228,7 @@ def corpus():
             Field('v64', '[long]'), Field('vd', '[double]'), Field('vc', '[Color]'), Field('p', 'Pt'), Field('vp', '[Pt]'),
             Field('opt', 'int', optional=True), Field('optf', 'double', optional=True),
             # defaults that need all 17 significant digits / 9 for float
+            Field('oc', 'Color', optional=True), Field('ou8', 'ubyte', optional=True), Field('ob', 'bool', optional=True),
             Field('f17', 'double', '0.30000000000000004'), Field('g17', 'double', '123456789.12345679'), Field('f9', 'float', '16777217.5')]),
     ], 'Sc', ident='SCAL'))
     # 2. structs with alignment 1..16 and force_align, nested structs, fixed arrays, struct roots
@@ -297,9 +298,37 @@ def corpus():
     #    (vtables of equal length and table size with equal leading entries: exercises the vtable cache comparison)
     S.append(Schema('bwide', [
         Table('W', [Field('f%d' % i, 'int', str(i)) for i in range(30)]),
+        # a table whose inline data can be sized byte-exactly (blocks of 100 bytes + single bytes) with a union in the middle:
+        # the data stack (256 bytes, doubling) is grown between the two slot reservations of <T>_<u>_add
+        Struct('B100', [('d', ('ubyte', 100))]),
+        Struct('B50', [('d', ('ubyte', 50))]),
+        Union('WAny', [('W', 'W'), ('txt', 'string')]),
+        Table('WU', [Field('k%d' % i, 'B100') for i in range(5)] + [Field('h0', 'B50')] + [Field('c%d' % i, 'ubyte') for i in range(64)] +
+                    [Field('u', 'WAny'), Field('tail', 'ushort'), Field('name', 'string')]),
         Table('WR', [Field('ws', '[W]'), Field('tag', 'int'), Field('ws2', '[W]'), Field('names', '[string]'), Field('names2', '[string]')]),
     ], 'WR'))
     return S
+
+
+def union_realloc_value(s, rng, inline):
+    """table WU (schema bwide) with exactly `inline` bytes of inline data added before the union field"""
+    F = {f.name: f for f in s.tables['WU'].fields}
+    k, m = inline // 100, inline % 100
+    h = 0
+    if m > 64: h, m = 1, m - 50
+    if k > 5: raise ValueError(inline)
+    fields = [(F['k%d' % i], Node('bytes', bytes(rng.getrandbits(8) for _ in range(100)))) for i in range(k)]
+    if h: fields.append((F['h0'], Node('bytes', bytes(rng.getrandbits(8) for _ in range(50)))))
+    fields += [(F['c%d' % i], Node('bytes', bytes([rng.randint(1, 255)]))) for i in range(m)]
+    if rng.random() < 0.5:
+        wf = s.tables['W'].fields
+        member = (1, Node('table', 'W', [(wf[0], Node('bytes', struct.pack('<i', 77))), (wf[3], Node('bytes', struct.pack('<i', -5)))]))
+    else:
+        member = (2, Node('str', b'union\0text'))
+    fields.append((F['u'], Node('union', member[0], member[1], 'WAny')))
+    fields.append((F['tail'], Node('bytes', struct.pack('<H', rng.randint(1, 65535)))))
+    fields.append((F['name'], Node('str', b'wu%d' % inline)))
+    return Node('table', 'WU', fields)
 
 
 def wide_value(s, rng, count=130):
@@ -734,7 +763,7 @@ class ScriptGen:
         lf = s.live_fields(n.a)
         fidx = {f.name: j for j, f in enumerate(lf)}
         adds = list(n.b)
-        rng.shuffle(adds)
+        if not getattr(self, 'keep_order', False): rng.shuffle(adds)
         self.stat('Tgenerated')
         self.h.append('Gs:%d' % t)
         madds, kept = [], []
@@ -827,9 +856,10 @@ class ScriptGen:
                 else:
                     size, al, _ = s.struct_layout(v.a)
                     self.h.append('Gn:%d:%d:%s:%s:0' % (t, j, var, hx(v.b.a)))
-                    # buffer_start(fid), the struct, buffer_end; only _create_as_typed_root passes the type identifier
-                    # (_start_as_typed_root of a nested struct root passes the file identifier in the generated code)
-                    idm = (self.thash or {}).get(v.a, 0) if var in 'CK' else idw
+                    # buffer_start(id), the struct, buffer_end; the _typed_ variants (C create, K clone, S start/end) pass the
+                    # type identifier (the pinned generator passed the FILE identifier in _start_as_typed_root of a nested struct
+                    # root: defect repaired in /repo, see known_findings.txt C17 typed-root:nested_stored_identifier_is_type_hash)
+                    idm = (self.thash or {}).get(v.a, 0) if var in 'CKS' else idw
                     self.m.append('B:%d:0:0' % idm)
                     self.m.append('R:%d:%s' % (al, hx(v.b.a))); rs = self.new()
                     self.m.append('E:%d' % rs); rb = self.new()
@@ -996,7 +1026,7 @@ class ScriptGen:
         return self.new()
 
 
-def harness_line(g): return 'build ' + ' '.join(g.h)
+def harness_line(g): return ('buildm ' if getattr(g, 'moving_alloc', False) else 'build ') + ' '.join(g.h)
 def model_line(g): return 'run ' + ' '.join(g.m)
 
 
@@ -1062,7 +1092,7 @@ def gen_glue(s):
             pre = 'if (sep__) out_c(\';\'); sep__ = 1; out_u(%d); out_c(\'=\');' % f.id
             if k == 'scalar':
                 if f.optional:
-                    bt = FBNAME[s.base_scalar(f.type)]
+                    bt = f.type if f.type in s.enums else FBNAME[s.base_scalar(f.type)]
                     w('  { %s_option_t o__ = %s_option(t); %s if (o__.is_null != !%s_is_present(t)) out_s("!OPT"); if (o__.is_null) out_s("~null"); else { out_s("+b"); out_hex(&o__.value, sizeof(o__.value)); } }'
                       % (bt, acc, pre, acc))
                 else:
